@@ -299,6 +299,7 @@ func interleaveFrame(a, b *inst) {
 		}
 	}
 	pa, pb := a.gb.VerifParts(), b.gb.VerifParts()
+	exitedBefore := map[*inst]bool{a: a.exited, b: b.exited}
 	for k := 0; k < 17556; k++ {
 		for _, x := range []struct {
 			in *inst
@@ -322,10 +323,10 @@ func interleaveFrame(a, b *inst) {
 		}
 	}
 	for _, in := range []*inst{a, b} {
-		if in.exited {
+		if exitedBefore[in] {
 			continue
 		}
-		in.observeFrame()
+		in.observeFrame() // also for an instance that stopped during this frame, exactly as stepFrame does
 	}
 }
 
@@ -381,14 +382,16 @@ func multiGen(c *ctx) {
 	})
 	sort.Strings(roms)
 	frames := 30
-	nRoms, nSynth := 14, 10
+	nRoms, nSynth := 18, 10
 	if c.thorough() {
 		frames, nRoms, nSynth = 300, len(roms), 50
 	}
 	// a seeded selection of the shipped ROMs, always including the big blargg ones
 	var ids []string
 	pick := map[string]bool{}
-	for _, must := range []string{"blargg/cpu_instrs/cpu_instrs.gb", "blargg/dmg_sound/dmg_sound.gb", "blargg/oam_bug/oam_bug.gb", "rtc3test/rtc3test.gb"} {
+	for _, must := range []string{"blargg/cpu_instrs/cpu_instrs.gb", "blargg/dmg_sound/dmg_sound.gb", "blargg/oam_bug/oam_bug.gb", "rtc3test/rtc3test.gb",
+		"blargg/halt_bug.gb", "mts-20221022-1430-8d742b9/acceptance/timer/rapid_toggle.gb", "mts-20221022-1430-8d742b9/acceptance/timer/tima_reload.gb",
+		"mts-20221022-1430-8d742b9/emulator-only/mbc1/ram_64kb.gb", "mts-20221022-1430-8d742b9/emulator-only/mbc5/rom_512kb.gb"} {
 		pick[must] = true
 	}
 	for len(pick) < nRoms && len(pick) < len(roms) {
@@ -422,6 +425,18 @@ func multiGen(c *ctx) {
 		}
 	}
 	if prop == "" || prop == "C25" {
+		// cartridges that report through cartridge RAM (blargg) always meet each other
+		var ramUsers []string
+		for _, id := range ids {
+			rp := mconfs[id].rom
+			if strings.Contains(rp, "dmg_sound") || strings.Contains(rp, "oam_bug") || strings.Contains(rp, "halt_bug") || strings.Contains(rp, "ram_64kb") {
+				ramUsers = append(ramUsers, id)
+			}
+		}
+		for i := 0; i+1 < len(ramUsers); i++ {
+			x.do(fmt.Sprintf("pair %s %s %d %s", ramUsers[i], ramUsers[i+1], frames, []string{"ab", "ba-fine"}[i%2]))
+			c.class("pair/ram/" + ramUsers[i] + "/" + ramUsers[i+1])
+		}
 		for k := 0; k+1 < len(ids); k++ {
 			a, b := ids[k], ids[(k+1+c.rng.intn(len(ids)-1))%len(ids)]
 			if a == b {
